@@ -940,9 +940,21 @@ func runDefault(stack *Stack, sc *Scenario) (string, []int, error) {
 type xRig struct {
 	*rigBase
 	srv   *p2pexp.VerifC06Server
-	peer  *exppeer.Peer
+	peer  *exppeer.Peer // the peer object of the node the current command is about
 	p     int
+	peers map[int]*exppeer.Peer
 	nonce uint64
+}
+
+// sel makes node a the subject of the following operations (every connection has its own real Peer object; the
+// objects share nothing but the store).
+func (r *xRig) sel(a int) bool {
+	if _, ok := r.nodes[a]; !ok {
+		return false
+	}
+	r.p = a
+	r.peer = r.peers[a]
+	return true
 }
 
 func (r *xRig) stateString() string {
@@ -1062,6 +1074,7 @@ func (r *xRig) connect() (string, error) {
 			return "", fmt.Errorf("connectPeer: %v", x.err)
 		}
 		r.peer = x.p
+		r.peers[r.p] = x.p
 	case <-time.After(rigTimeout):
 		return "", fmt.Errorf("connectPeer timed out")
 	}
@@ -1086,6 +1099,11 @@ func (r *xRig) cmd(c string) (string, error) {
 	op, a, b, kind, err := parseCmd(c)
 	if err != nil {
 		return "", err
+	}
+	if op != 'R' && op != 'T' && op != 'Q' {
+		if !r.sel(a) {
+			return "", nil
+		}
 	}
 	n := r.nodes[r.p]
 	switch op {
@@ -1118,9 +1136,18 @@ func (r *xRig) cmd(c string) (string, error) {
 		}
 		return r.after("GH" + strconv.Itoa(r.p))
 	case 'R':
+		// the first node (in declaration order) with a message to deliver, until none is left
 		var parts []string
 		for f := 0; f < a; f++ {
-			if !n.open || len(n.out) == 0 {
+			found := false
+			for _, q := range r.order {
+				if nq := r.nodes[q]; nq.open && len(nq.out) > 0 {
+					r.sel(q)
+					found = true
+					break
+				}
+			}
+			if !found {
 				break
 			}
 			s, err := r.deliver()
@@ -1140,30 +1167,33 @@ func runExp(stack *Stack, sc *Scenario) (string, []int, error) {
 	if err != nil {
 		return "", nil, err
 	}
-	if len(base.order) != 1 {
-		return "", nil, fmt.Errorf("the experimental engine has exactly one peer")
+	if len(base.order) < 1 {
+		return "", nil, fmt.Errorf("no node declared")
 	}
 	cfg := config.GetDefaultAppConfig().P2P
 	cfg.UserAgentName, cfg.UserAgentVersion = "verif", "0.0.1"
-	r := &xRig{rigBase: base, p: base.order[0]}
+	r := &xRig{rigBase: base, p: base.order[0], peers: map[int]*exppeer.Peer{}}
 	r.srv = p2pexp.VerifC06NewServer(cfg, base.prm, base.hs, base.svc.Chains)
 	defer func() {
-		n := r.nodes[r.p]
-		// the read loop of the experimental peer spins on read errors until the peer is told to quit, and a peer
-		// that disconnected from inside its own read loop must not be disconnected twice (close of closed channel)
-		if r.peer != nil && n.open {
-			done := make(chan struct{})
-			go func() {
-				defer func() { _ = recover(); close(done) }()
-				r.peer.Disconnect()
-			}()
-			select {
-			case <-done:
-			case <-time.After(rigTimeout):
+		for _, q := range r.order {
+			n := r.nodes[q]
+			pr := r.peers[q]
+			// the read loop of the experimental peer spins on read errors until the peer is told to quit, and a peer
+			// that disconnected from inside its own read loop must not be disconnected twice (close of closed channel)
+			if pr != nil && n.open {
+				done := make(chan struct{})
+				go func() {
+					defer func() { _ = recover(); close(done) }()
+					pr.Disconnect()
+				}()
+				select {
+				case <-done:
+				case <-time.After(rigTimeout):
+				}
 			}
-		}
-		if n.conn != nil {
-			_ = n.conn.Close()
+			if n.conn != nil {
+				_ = n.conn.Close()
+			}
 		}
 	}()
 	steps := []string{"init" + r.stateString()}
